@@ -770,7 +770,9 @@ def gen_extremes_case(rng, cid, tier, huge_only=False):
     slow = nh > 300
     # the extracted model needs ~0.5 ms per hash position (15 s for one call with 32767 hash functions): such filters are
     # hashed by the crate through the clone probe (op 18) and by the model only in the thorough tier, once, in a quarter of these cases
-    direct = {2047: 2, 32767: 1 if (tier == "thorough" and rng.random() < 0.25) else 0}.get(nh, 10**9)
+    direct = (3000 if tier == "quick" else 20000) // nh          # number of calls hashed by the model as well
+    if nh == 32767:
+        direct = 1 if (tier == "thorough" and rng.random() < 0.25) else 0
     seed = rng.choice([0, M64, 9001, 1, rng.getrandbits(64)])
     nslots = rng.choice([1, 2, 3])
     budget = 12 if slow else (12 if huge else (rng.choice([20, 80, 250]) if tier == "quick" else rng.choice([80, 400, 1500])))
